@@ -17,7 +17,7 @@ def main():
         if event == "open" and args and isinstance(args[0], str):
             m = args[1]
             if isinstance(m, str) and any(ch in m for ch in "wax+"):
-                writes.append(args[0])
+                writes.append(os.path.abspath(args[0]))
     sys.addaudithook(hook)
     if walk_seed:
         real_walk = os.walk
@@ -57,6 +57,20 @@ def main():
                 ProtocolCodeGenerator(Path(xml_root + ".other")).generate(Path(out_root + ".first"))
                 del writes[:]
                 ProtocolCodeGenerator(Path(xml_root)).generate(Path(out_root))
+            elif mode == "relative-roots":
+                # both roots spelled relative to the working directory
+                os.chdir(os.path.dirname(xml_root))
+                ProtocolCodeGenerator(Path(os.path.basename(xml_root))).generate(Path(os.path.relpath(out_root)))
+            elif mode == "dot-root":
+                # the input root is the working directory itself
+                os.chdir(xml_root)
+                ProtocolCodeGenerator(Path(".")).generate(Path(out_root))
+            elif mode == "unnormalised-roots":
+                # the same directories through '..' components
+                parent = os.path.dirname(xml_root)
+                spelled = os.path.join(parent, "..", os.path.basename(parent), os.path.basename(xml_root))
+                oparent = os.path.dirname(out_root)
+                ProtocolCodeGenerator(Path(spelled)).generate(Path(os.path.join(oparent, "..", os.path.basename(oparent), os.path.basename(out_root))))
             elif mode == "failed-then-good":
                 # a failed run (output root blocked by a regular file) must not leak state into the next run
                 g = ProtocolCodeGenerator(Path(xml_root))
